@@ -1,6 +1,8 @@
 \* C03 negative: a parser that ignores backslash escapes must be rejected
 CONSTANTS
   EscMode = "none"
+  CommentGuard = TRUE
+  NlReset = FALSE
   MaxPre = 1
   EmitCases = FALSE
 INIT Init
